@@ -40,6 +40,13 @@ import (
 	"github.com/haqq-network/haqq/utils"
 	liquidvestingtypes "github.com/haqq-network/haqq/x/liquidvesting/types"
 	ucdaotypes "github.com/haqq-network/haqq/x/ucdao/types"
+	coinomicstypes "github.com/haqq-network/haqq/x/coinomics/types"
+	epochstypes "github.com/haqq-network/haqq/x/epochs/types"
+	erc20types "github.com/haqq-network/haqq/x/erc20/types"
+	evmtypes "github.com/haqq-network/haqq/x/evm/types"
+	feemarkettypes "github.com/haqq-network/haqq/x/feemarket/types"
+	authtypes "github.com/cosmos/cosmos-sdk/x/auth/types"
+	tmproto "github.com/cometbft/cometbft/proto/tendermint/types"
 	vestingtypes "github.com/haqq-network/haqq/x/vesting/types"
 )
 
@@ -296,7 +303,19 @@ func (n *Node) exportImport() (M, error) {
 		a["_n"] = fmt.Sprint(len(f2))
 		before[mod], after[mod] = b, a
 	}
-	return M{"before": before, "after": after, "norm": norm, "leaves": leaves, "initHeight": fmt.Sprint(exp.Height)}, nil
+	// second clause of C19: the Haqq modules answer every query identically on both apps
+	qb, qa, qn := M{}, M{}, M{"_same": "_same", "_n": "_n"}
+	reqs := n.haqqQueries()
+	for _, k := range sortedKeys(reqs) {
+		r1 := n.App.Query(abci.RequestQuery{Path: reqs[k].path, Data: reqs[k].data})
+		r2 := fresh.Query(abci.RequestQuery{Path: reqs[k].path, Data: reqs[k].data})
+		qb[k] = fmt.Sprintf("%d:%s", r1.Code, digest(r1.Value))
+		qa[k] = fmt.Sprintf("%d:%s", r2.Code, digest(r2.Value))
+		qn[k] = reqs[k].norm
+	}
+	qb["_same"], qa["_same"], qb["_n"], qa["_n"] = "-", "-", fmt.Sprint(len(reqs)), fmt.Sprint(len(reqs))
+	before["queries"], after["queries"], norm["queries"] = qb, qa, qn
+	return M{"before": before, "after": after, "norm": norm, "leaves": leaves, "queries": len(reqs), "initHeight": fmt.Sprint(exp.Height)}, nil
 }
 
 func chainMain(args []string) error {
@@ -480,7 +499,7 @@ func chainMain(args []string) error {
 				continue
 			}
 			emit(M{"ev": "export_import", "h": n.Height, "ok": true, "err": "", "before": d["before"], "after": d["after"], "norm": d["norm"],
-				"leaves": d["leaves"], "initHeight": d["initHeight"]})
+				"leaves": d["leaves"], "queries": d["queries"], "initHeight": d["initHeight"]})
 		}
 	}
 	if *role == "gen" {
@@ -510,4 +529,59 @@ func (n *Node) ethTxOnCheckState(k Key, to *common.Address) ([]byte, any, error)
 	}
 	bz, err := WrapEthMsgs(msg)
 	return bz, msg, err
+}
+
+type haqqQuery struct {
+	path string
+	data []byte
+	norm string
+}
+
+// haqqQueries lists gRPC queries of the Haqq modules over the accounts, contracts, vesting
+// accounts and denominations that exist in the current state.
+func (n *Node) haqqQueries() map[string]haqqQuery {
+	out := map[string]haqqQuery{}
+	ctx := n.App.BaseApp.NewContext(true, tmproto.Header{Height: n.Height})
+	add := func(key, norm, path string, msg interface{ Marshal() ([]byte, error) }) {
+		bz, err := msg.Marshal()
+		if err != nil {
+			panic(err)
+		}
+		out[key] = haqqQuery{path: path, data: bz, norm: norm}
+	}
+	add("evm.params", "evm.params", "/ethermint.evm.v1.Query/Params", &evmtypes.QueryParamsRequest{})
+	add("feemarket.params", "feemarket.params", "/ethermint.feemarket.v1.Query/Params", &feemarkettypes.QueryParamsRequest{})
+	add("feemarket.basefee", "feemarket.basefee", "/ethermint.feemarket.v1.Query/BaseFee", &feemarkettypes.QueryBaseFeeRequest{})
+	add("erc20.pairs", "erc20.pairs", "/evmos.erc20.v1.Query/TokenPairs", &erc20types.QueryTokenPairsRequest{})
+	add("erc20.params", "erc20.params", "/evmos.erc20.v1.Query/Params", &erc20types.QueryParamsRequest{})
+	add("liquidvesting.denoms", "liquidvesting.denoms", "/haqq.liquidvesting.v1.Query/Denoms", &liquidvestingtypes.QueryDenomsRequest{})
+	add("ucdao.total", "ucdao.total", "/haqq.ucdao.v1.Query/TotalBalance", &ucdaotypes.QueryTotalBalanceRequest{})
+	add("ucdao.holders", "ucdao.holders", "/haqq.ucdao.v1.Query/Holders", &ucdaotypes.QueryHoldersRequest{})
+	add("ucdao.params", "ucdao.params", "/haqq.ucdao.v1.Query/Params", &ucdaotypes.QueryParamsRequest{})
+	add("coinomics.params", "coinomics.params", "/haqq.coinomics.v1.Query/Params", &coinomicstypes.QueryParamsRequest{})
+	add("coinomics.maxsupply", "coinomics.maxsupply", "/haqq.coinomics.v1.Query/MaxSupply", &coinomicstypes.QueryMaxSupplyRequest{})
+	add("coinomics.coeff", "coinomics.coeff", "/haqq.coinomics.v1.Query/RewardCoefficient", &coinomicstypes.QueryRewardCoefficientRequest{})
+	add("epochs.infos", "epochs.infos", "/evmos.epochs.v1.Query/EpochInfos", &epochstypes.QueryEpochsInfoRequest{})
+	add("epochs.current.day", "epochs.current", "/evmos.epochs.v1.Query/CurrentEpoch", &epochstypes.QueryCurrentEpochRequest{Identifier: "day"})
+	add("vesting.totallocked", "vesting.totallocked", "/haqq.vesting.v1.Query/TotalLocked", &vestingtypes.QueryTotalLockedRequest{})
+	i := 0
+	n.App.AccountKeeper.IterateAccounts(ctx, func(acc authtypes.AccountI) bool {
+		i++
+		addr := acc.GetAddress()
+		hex := common.BytesToAddress(addr).Hex()
+		add(fmt.Sprintf("evm.account.%03d", i), "evm.account", "/ethermint.evm.v1.Query/Account", &evmtypes.QueryAccountRequest{Address: hex})
+		add(fmt.Sprintf("ucdao.balances.%03d", i), "ucdao.balances", "/haqq.ucdao.v1.Query/AllBalances", &ucdaotypes.QueryAllBalancesRequest{Address: addr.String()})
+		if _, ok := acc.(*vestingtypes.ClawbackVestingAccount); ok {
+			add(fmt.Sprintf("vesting.balances.%03d", i), "vesting.balances", "/haqq.vesting.v1.Query/Balances", &vestingtypes.QueryBalancesRequest{Address: addr.String()})
+		}
+		if ea, ok := acc.(interface{ GetCodeHash() common.Hash }); ok && ea.GetCodeHash() != common.BytesToHash(ethcrypto.Keccak256(nil)) {
+			add(fmt.Sprintf("evm.code.%03d", i), "evm.code", "/ethermint.evm.v1.Query/Code", &evmtypes.QueryCodeRequest{Address: hex})
+			for slot := 0; slot < 4; slot++ {
+				add(fmt.Sprintf("evm.storage.%03d.%d", i, slot), "evm.storage", "/ethermint.evm.v1.Query/Storage",
+					&evmtypes.QueryStorageRequest{Address: hex, Key: common.BigToHash(big.NewInt(int64(slot))).Hex()})
+			}
+		}
+		return false
+	})
+	return out
 }
